@@ -426,8 +426,13 @@ def check_drivers():
             return v.bit_select(lo, hi - lo)
         if form == "word_select" and lo % (hi - lo) == 0:
             return v.word_select(lo // (hi - lo), hi - lo)
+        if form == "as_signed":
+            return v.as_signed()[lo:hi]
+        if form == "cat":
+            from amaranth.hdl import Cat
+            return Cat(v[0:1], v[1:3])[lo:hi]
         return v[lo:hi]
-    for ((r1, p1), (r2, p2)), form in itertools.product(itertools.product(itertools.product(ranges, places), repeat=2), ("slice", "bit_select", "word_select")):
+    for ((r1, p1), (r2, p2)), form in itertools.product(itertools.product(itertools.product(ranges, places), repeat=2), ("slice", "bit_select", "word_select", "as_signed", "cat")):
         for inst_bits in (None, (2, 3)):
             n += 1
             sig = Signal(3, name="sig")
@@ -479,8 +484,15 @@ def check_early():
     n = 0
     bad = None
     def tgt(v, lo, hi, form):
+        if form == "as_signed":
+            return v.as_signed()[lo:hi]
+        if form == "as_unsigned-of-slice":
+            return v[lo:hi].as_unsigned()
+        if form == "cat":
+            from amaranth.hdl import Cat
+            return Cat(v[0:2], v[2:3])[lo:hi]
         return v.bit_select(lo, hi - lo) if form == "bit_select" else v[lo:hi]
-    for seq, form in itertools.product(itertools.product(itertools.product(ranges, doms), repeat=3), ("slice", "bit_select")):
+    for seq, form in itertools.product(itertools.product(itertools.product(ranges, doms), repeat=3), ("slice", "bit_select", "as_signed", "as_unsigned-of-slice", "cat")):
         n += 1
         m = Module()
         sig, x = Signal(3), Signal(3)
